@@ -15,6 +15,7 @@ class G:
         self.feats = feats
         self.n = 0
         self.leaves = []
+        self.fn_prob = 0.06
 
     def words(self, n):
         ws = [fraggen.word(self.n + i) for i in range(n)]
@@ -71,7 +72,7 @@ class G:
             else:
                 out.append(ws[i])
                 i += 1
-            if 'footnote' in self.feats and rng.random() < 0.06:
+            if 'footnote' in self.feats and rng.random() < self.fn_prob:
                 fw = self.words(1)
                 self.leaf(fw, 'footnote', ctx + ['footnote'])
                 out.append('<span style="float:footnote">%s</span>' % fw[0])
@@ -174,7 +175,13 @@ def document(rng, feats=ALL_FEATS, heights=(40, 50, 60, 80, 100, 150, 200, 35, 4
     g = G(rng, set(feats))
     H = rng.choice(heights)
     W = rng.choice([160, 200, 240])
+    fn_css = ''
+    if 'footnote' in g.feats and rng.random() < 0.35:
+        # footnote-heavy document with a decorated footnote area
+        g.fn_prob = rng.choice([0.15, 0.3])
+        fn_css = '@page{@footnote{margin-top:%dpx;padding-top:%dpx;border-top:%dpx solid}}' % (
+            rng.choice([0, 5, 12]), rng.choice([0, 0, 3]), rng.choice([0, 0, 1]))
     body = ''.join(g.block(0, []) for _ in range(rng.choice([1, 2, 3, 5, 8])))
-    html = ('<style>@page{size:%dpx %dpx; margin:0} html{font-family:weasyprint;font-size:10px;line-height:10px}'
-            'body{margin:0} p,ul,ol{margin:0} td{padding:0}</style>' % (W, H)) + body
+    html = ('<style>@page{size:%dpx %dpx; margin:0} %s html{font-family:weasyprint;font-size:10px;line-height:10px}'
+            'body{margin:0} p,ul,ol{margin:0} td{padding:0}</style>' % (W, H, fn_css)) + body
     return html, g.leaves, H
